@@ -2,8 +2,9 @@
 """Prints the sub-agent prompt for one property (only the property's text and a scratch worktree path)."""
 import json,sys
 pid=sys.argv[1]
-wt=f"/tmp/wt_{pid}"
-out=f"/tmp/seed_out/{pid}"
+suffix=sys.argv[2] if len(sys.argv)>2 else ""   # e.g. "r2" for a second, independent round
+wt=f"/tmp/wt_{pid}{suffix}"
+out=f"/tmp/seed_out/{pid}{suffix}"
 for l in open('/verif/properties.jsonl'):
     p=json.loads(l)
     if p['id']==pid: break
